@@ -13,16 +13,16 @@ def run(ctx):
     rng = ctx.rng
     cases, metas = [], {}
     for k in range(ctx.budget(700, 30000)):
-        line, m = (gen.gen_upd if k % 2 else adversarial_upd)(rng.fork('u%d' % k), k, *(() if k % 2 else (ctx.tier,)))
+        line, m = (gen.gen_upd(rng.fork('u%d' % k), k, wtype='i') if k % 2 else adversarial_upd(rng.fork('u%d' % k), k, ctx.tier))
         cases.append(line)
         metas[k] = m
-    res = ctx.component('K-LIK', cases)
+    res = ctx.component('K-LIK', cases, keys={'dims', 'lik'})
     traj, tmetas = [], {}
     for k in range(ctx.budget(100, 3000)):
         line, m = gen.gen_e2e(rng.fork('t%d' % k), 600000 + k, maxit_max=45, r_max=2, trace=2, nconv=rng.rint(1, 2))
         traj.append(line)
         tmetas[600000 + k] = m
-    res2 = ctx.component('K-E2E', traj)
+    res2 = ctx.component('K-E2E(trajectories, implementation only)', traj, model=False)
     n_eval = 0
     low = 0
     keys = set()
